@@ -142,6 +142,17 @@ func (r *memRepo) raw(key string) ([]byte, bool) {
 	v, ok := r.kv[key]
 	return v, ok
 }
+func (r *memRepo) snapshot(prefix string) map[string]string {
+	r.mu.Lock()
+	defer r.mu.Unlock()
+	out := map[string]string{}
+	for k, v := range r.kv {
+		if strings.HasPrefix(k, prefix) {
+			out[k] = string(v)
+		}
+	}
+	return out
+}
 func (r *memRepo) puts(key string) int {
 	r.mu.Lock()
 	defer r.mu.Unlock()
@@ -368,9 +379,35 @@ type machine struct {
 	pending   map[int][][]byte
 	lastRaw   map[int][]byte
 	delivered map[int]*models.ShardAssignment
+	// what the harness last saw persisted for each database (after its last config event; forgotten
+	// when the database is dropped): "existing shards" of a grow are judged against this record
+	lastPersisted map[int]*models.ShardAssignment
 }
 
-func dbName(d int) string { return "db" + strconv.Itoa(d) }
+// Database names of the machine cases (the model knows databases by number). The names the
+// generator uses most are prefix-related on purpose: the repository is a flat key space and
+// /database/assign/db1 is a string prefix of /database/assign/db10 and /database/assign/db1_archive.
+var dbNames = map[int]string{0: "db1", 1: "db10", 2: "db1_archive"}
+
+func dbName(d int) string {
+	if n, ok := dbNames[d]; ok {
+		return n
+	}
+	return "dbx" + strconv.Itoa(d)
+}
+
+func dbID(name string) int {
+	for d, n := range dbNames {
+		if n == name {
+			return d
+		}
+	}
+	d, err := strconv.Atoi(strings.TrimPrefix(name, "dbx"))
+	if err != nil {
+		return -1
+	}
+	return d
+}
 
 func (m *machine) dump() string {
 	var dbs []int
@@ -399,7 +436,7 @@ func dumpStorage(st *models.StorageState) (liveStr, body string) {
 	}
 	var names []int
 	for name := range st.ShardStates {
-		d, _ := strconv.Atoi(strings.TrimPrefix(name, "db"))
+		d := dbID(name)
 		names = append(names, d)
 	}
 	sort.Ints(names)
@@ -472,11 +509,25 @@ func (m *machine) oracle(c *core.Ctx, after string) {
 			c.Fail("live-nodes-not-event-history", fmt.Sprintf("after %q: node %d started but is not in LiveNodes", after, id))
 		}
 	}
+	// every shard of every delivered, not-dropped assignment is reported (has a shard state); whether
+	// it is online is judged below
+	for d, asg := range m.delivered {
+		ss := st.ShardStates[dbName(d)]
+		for id := range asg.Shards {
+			if _, ok := ss[id]; !ok {
+				alive := false
+				for _, rp := range asg.Shards[id].Replicas {
+					alive = alive || m.live[int(rp)]
+				}
+				c.Fail("assigned-shard-not-reported", fmt.Sprintf("after %q: %s shard %d (replicas %v, alive replica=%v) is assigned but has no shard state", after, dbName(d), id, asg.Shards[id].Replicas, alive))
+			}
+		}
+	}
 	for name, ss := range st.ShardStates {
 		// "its replicas": the assignment the manager was told about by the last delivered
 		// ShardAssignmentChanged event of this database (not the object the manager publishes,
 		// which a handler could have modified in place)
-		d, _ := strconv.Atoi(strings.TrimPrefix(name, "db"))
+		d := dbID(name)
 		asg := m.delivered[d]
 		for id, s := range ss {
 			var replicas []models.NodeID
@@ -595,6 +646,15 @@ var scripts = [][]evStep{
 			{"up", 2, 0, 0, nil}, {"down", 1, 0, 0, nil}, {"up", 3, 0, 0, nil}, {"down", 2, 0, 0, nil}, {"up", 0, 0, 0, nil}, {"up", 1, 0, 0, nil},
 			{"down", 3, 0, 0, nil}, {"down", 0, 0, 0, nil}, {"up", 2, 0, 0, nil}}},
 		{"cfg", 0, 2, 2, nil}},
+	// 8: cold start — an assignment is delivered while no node is up, then the nodes register
+	{{"up", 1, 0, 0, nil}, {"up", 2, 0, 0, nil}, {"cfgq", 0, 3, 2, nil}, {"cfgq", 1, 2, 1, nil}, {"down", 1, 0, 0, nil}, {"down", 2, 0, 0, nil},
+		{"deliver", 0, 0, 0, nil}, {"deliver", 1, 0, 0, nil}, {"up", 1, 0, 0, nil}, {"up", 2, 0, 0, nil}, {"down", 1, 0, 0, nil}, {"down", 2, 0, 0, nil},
+		{"dup", 0, 0, 0, nil}, {"up", 2, 0, 0, nil}, {"drop", 1, 0, 0, nil}, {"dup", 1, 0, 0, nil}, {"up", 1, 0, 0, nil}},
+	// 9: databases whose names are prefixes of one another (db1, db10, db1_archive): drop one, grow the others
+	{{"up", 0, 0, 0, nil}, {"up", 1, 0, 0, nil}, {"up", 2, 0, 0, nil}, {"up", 3, 0, 0, nil}, {"up", 4, 0, 0, nil},
+		{"cfg", 0, 4, 2, nil}, {"cfg", 1, 5, 2, nil}, {"cfg", 2, 6, 3, nil}, {"drop", 0, 0, 0, nil}, {"cfg", 1, 2, 0, nil}, {"cfg", 2, 3, 0, nil},
+		{"cfg", 0, 3, 1, nil}, {"drop", 1, 0, 0, nil}, {"cfg", 0, 1, 0, nil}, {"cfg", 2, 1, 0, nil}, {"drop", 0, 0, 0, nil}, {"cfg", 2, 2, 0, nil},
+		{"drop", 2, 0, 0, nil}, {"cfg", 1, 3, 2, nil}, {"cfg", 0, 2, 2, nil}, {"drop", 1, 0, 0, nil}, {"cfg", 0, 3, 0, nil}},
 }
 
 func machineCase(c *core.Ctx, r *rand.Rand) {
@@ -695,6 +755,30 @@ func machineCase(c *core.Ctx, r *rand.Rand) {
 			evs = append(evs, evStep{kind: "burst", burst: b})
 			continue
 		}
+		if lagging && r.Intn(14) == 0 { // cold start: an assignment is delivered while no node is up, then nodes register
+			dd := r.Intn(nDB)
+			evs = append(evs, evStep{"cfgq", dd, 1 + r.Intn(maxShards), 1 + r.Intn(maxRF), nil})
+			for id := 0; id < nNodes; id++ {
+				if live[id] {
+					delete(live, id)
+					evs = append(evs, evStep{"down", id, 0, 0, nil})
+				}
+			}
+			if r.Intn(2) == 0 {
+				evs = append(evs, evStep{"deliver", dd, 0, 0, nil})
+			} else {
+				evs = append(evs, evStep{"drop", dd, 0, 0, nil}, evStep{"deliver", dd, 0, 0, nil}, evStep{"dup", dd, 0, 0, nil})
+			}
+			pend[dd] = 0
+			for id := 0; id < nNodes; id++ {
+				if r.Intn(2) == 0 {
+					live[id] = true
+					evs = append(evs, evStep{"up", id, 0, 0, nil})
+				}
+			}
+			c.Branch("gen-cold-start")
+			continue
+		}
 		if r.Intn(16) == 0 { // the write of the published state fails during a node event; no-op events follow
 			evs = append(evs, evStep{"statefail", 0, 0, 0, nil})
 			if r.Intn(2) == 0 {
@@ -783,7 +867,7 @@ func machineRun(c *core.Ctx, _ *rand.Rand, evs []evStep) {
 	defer cancel()
 	repo := &memRepo{kv: map[string][]byte{}, asgPuts: map[string]int{}}
 	m := &machine{repo: repo, mgr: master.NewStateManager(ctx, repo, nil), live: map[int]bool{}, dbs: map[int]*models.Database{},
-		pending: map[int][][]byte{}, lastRaw: map[int][]byte{}, delivered: map[int]*models.ShardAssignment{}}
+		pending: map[int][][]byte{}, lastRaw: map[int][]byte{}, delivered: map[int]*models.ShardAssignment{}, lastPersisted: map[int]*models.ShardAssignment{}}
 	defer m.mgr.Close()
 	c.Op("reset", "ok")
 	for _, e := range evs {
@@ -839,6 +923,12 @@ func machineRun(c *core.Ctx, _ *rand.Rand, evs []evStep) {
 			data, _ := json.Marshal(cfg)
 			asgKey := constants.GetDatabaseAssignPath(cfg.Name)
 			before, oldRaw := m.persisted(d)
+			if rec := m.lastPersisted[d]; rec != nil {
+				if before == nil || showAsg(before) != showAsg(rec) {
+					c.Branch("cfg-persisted-differs-from-record")
+				}
+				before = rec // judge "existing shards" against what was persisted, not against a fresh read
+			}
 			putsBefore := repo.puts(asgKey)
 			armed := repo.failAsgPut > 0
 			m.dbs[d] = cfg
@@ -882,6 +972,9 @@ func machineRun(c *core.Ctx, _ *rand.Rand, evs []evStep) {
 					}
 				}
 				c.NonTrivial()
+			}
+			if after != nil {
+				m.lastPersisted[d] = after
 			}
 			// every successful Put makes the etcd watch emit the payload (one is kept per config event)
 			if repo.puts(asgKey) > putsBefore {
@@ -935,6 +1028,8 @@ func machineRun(c *core.Ctx, _ *rand.Rand, evs []evStep) {
 			d := e.a
 			name := dbName(d)
 			repo.del(constants.GetDatabaseAssignPath(name))
+			delete(m.lastPersisted, d)
+			others := repo.snapshot(constants.ShardAssignmentPath + "/")
 			_, known := m.dbs[d]
 			delete(m.dbs, d)
 			if known {
@@ -945,6 +1040,16 @@ func machineRun(c *core.Ctx, _ *rand.Rand, evs []evStep) {
 				c.Branch("ev-drop-unknown-db")
 			}
 			m.event(c, fmt.Sprintf("dropdb %d", d), &discovery.Event{Type: discovery.DatabaseConfigDeletion, Key: constants.GetDatabaseConfigPath(name)}, known)
+			// dropping one database leaves every other database's persisted assignment as it is
+			now := repo.snapshot(constants.ShardAssignmentPath + "/")
+			for k, v := range others {
+				if len(others) > 0 {
+					c.Branch("ev-drop-with-other-databases")
+				}
+				if v2, ok := now[k]; !ok || v2 != v {
+					c.Fail("drop-disturbs-other-database", fmt.Sprintf("dropdb %d (%s): persisted assignment %s was %q, now %q (present=%v)", d, name, k, v, v2, ok))
+				}
+			}
 		}
 	}
 }
